@@ -25,6 +25,7 @@ var (
 	wdActive  = map[wdKey]time.Time{}
 	wdChecked = map[wdKey]bool{}
 	wdOnce    sync.Once
+	wdMemOnce sync.Once
 )
 
 const (
@@ -33,6 +34,26 @@ const (
 )
 
 func init() {
+	// worker subcommands (c01-worker, c10-worker, ...) lint in-process as well: end the worker before
+	// the kernel's OOM killer ends something else; the parent treats the death as a crash of the
+	// journaled case
+	if len(os.Args) > 1 && len(os.Args[1]) > 7 && os.Args[1][len(os.Args[1])-7:] == "-worker" {
+		go func() {
+			limit := uint64(24) << 30
+			if s := os.Getenv("VERIF_MEM_LIMIT_MB"); s != "" {
+				if n, err := strconv.Atoi(s); err == nil && n > 0 {
+					limit = uint64(n) << 20
+				}
+			}
+			for {
+				time.Sleep(200 * time.Millisecond)
+				if rss := wdRSSBytes(); rss >= limit {
+					fmt.Fprintf(os.Stderr, "fatal error: verif memory guard: worker reached %d MiB of resident memory (limit %d MiB)\n", rss>>20, limit>>20)
+					os.Exit(2)
+				}
+			}
+		}()
+	}
 	// child side: apply the CPU limit requested by the parent
 	if s := os.Getenv("VERIF_CPU_LIMIT"); s != "" {
 		if n, err := strconv.Atoi(s); err == nil && n > 0 {
@@ -54,7 +75,59 @@ func (r *Run) wdLeave(fam string, idx int) {
 	wdMu.Unlock()
 }
 
+// wdRSSBytes is the resident set size of this process (0 if unknown).
+func wdRSSBytes() uint64 {
+	b, err := os.ReadFile("/proc/self/statm")
+	if err != nil {
+		return 0
+	}
+	var size, rss uint64
+	fmt.Sscan(string(b), &size, &rss)
+	return rss * uint64(os.Getpagesize())
+}
+
+// wdMemGuard ends the run before the kernel's OOM killer does: code under test that allocates
+// without bound (e.g. a message loop that never terminates) would otherwise take the whole machine
+// down. Unbounded allocation is a violation for the properties that state termination / no crash
+// (C01, C18) and makes the run inconclusive for the others.
+func (r *Run) wdMemGuard() {
+	limit := uint64(24) << 30
+	if s := os.Getenv("VERIF_MEM_LIMIT_MB"); s != "" {
+		if n, err := strconv.Atoi(s); err == nil && n > 0 {
+			limit = uint64(n) << 20
+		}
+	}
+	go func() {
+		for {
+			time.Sleep(200 * time.Millisecond)
+			rss := wdRSSBytes()
+			if rss < limit {
+				continue
+			}
+			var oldest wdKey
+			var t0 time.Time
+			var active []string
+			wdMu.Lock()
+			for k, t := range wdActive {
+				active = append(active, fmt.Sprintf("%s[%d]", k.fam, k.idx))
+				if t0.IsZero() || t.Before(t0) {
+					oldest, t0 = k, t
+				}
+			}
+			wdMu.Unlock()
+			what := fmt.Sprintf("the monitor process reached %d MiB of resident memory (limit %d MiB) while running %v: the code under test allocates without bound", rss>>20, limit>>20, active)
+			if (r.Prop == "C01" || r.Prop == "C18") && !t0.IsZero() {
+				r.violationAt(oldest.fam, oldest.idx, "memory-exhaustion:"+oldest.fam, what, map[string]interface{}{"active_cases": active})
+			} else {
+				r.Inconclusive(what)
+			}
+			r.Finish()
+		}
+	}()
+}
+
 func (r *Run) wdStart() {
+	wdMemOnce.Do(r.wdMemGuard)
 	if r.ReplayOf != nil || os.Getenv("VERIF_CPU_LIMIT") != "" {
 		return
 	}
